@@ -133,7 +133,7 @@ def replay(case, ctx):
     elif k == "codec":
         _codec_one(case["ports"], ctx)
     elif k == "history":
-        _run_history(case["line"], case["platform"], case["views"], ctx)
+        _run_history(case["line"], case["platform"], case["views"], ctx, held=case.get("held", False))
     elif k == "platforms":
         _platforms(ctx)
     elif k == "reassign":
@@ -355,15 +355,27 @@ def _state(port):
                 nports=len(port.ports), ports_digest=hash(tuple(port.ports)), sport=port.sport)
 
 
-def _run_history(line, platform, views, ctx):
+def _run_history(line, platform, views, ctx, held=False):
+    """held: the caller reads the three views ONCE and writes the very same objects back at every
+    step (an assignment must not modify the object that is assigned)."""
     from cisco_acl import Port
 
     port = Port(line, platform=platform, protocol="tcp", port_nr=True)
     want = _state(port)
-    case = dict(kind="history", line=line, platform=platform, views=list(views))
+    case = dict(kind="history", line=line, platform=platform, views=list(views), held=held)
+    own = dict(items=port.items, ports=port.ports, sport=port.sport)
+    snap = dict(items=list(own["items"]), ports=list(own["ports"]), sport=own["sport"])
     for i, view in enumerate(views):
         try:
-            if view == "items":
+            if held:
+                setattr(port, view, own[view])
+                now = dict(items=list(own["items"]), ports=list(own["ports"]), sport=own["sport"])
+                if now != snap:
+                    ctx.viol(f"Port.{view}:assignment_modifies_the_assigned_object", dict(case, step=i),
+                             {k: now[k][:6] for k in now if now[k] != snap[k]},
+                             {k: snap[k][:6] for k in now if now[k] != snap[k]})
+                    return
+            elif view == "items":
                 port.items = port.items
             elif view == "ports":
                 port.ports = port.ports
@@ -392,4 +404,6 @@ def _hist(expr, ctx):
             ctx.ev()
             ctx.nt_count()
             _run_history(line, platform, views, ctx)
+            if n >= 2:
+                _run_history(line, platform, views, ctx, held=True)
     ctx.sample("history", dict(line=line, views=["ports", "sport", "items"]))
